@@ -35,6 +35,7 @@ CODES = {1: "the rows of the result frame are not the modelled set {frozenset(co
          2: "status of a row contradicts the exact verdict for the knocked-out model",
          3: "growth of a row is not the certified optimum of the knocked-out model (or NaN-ness is wrong)",
          4: "duplicated row, or a row that is not a requested unordered combination, or a combination without row",
+         12: "a reference solution passed as solution= was ignored (the implementation computed its own pFBA reference)",
          5: "linear MOMA: the reported growth is not the old objective's value at any minimal-adjustment solution",
          6: "find_essential_* returned an entity that is not essential, or missed one that is",
          7: "the `knockout` accessor did not return exactly the row of a combination",
@@ -190,7 +191,8 @@ def del_case(case):
     ref = None
     if method == "linear moma" and ref_sol is not None and "sol" in used:
         # the caller's reference was handed over, yet the implementation computed its own (pfba) reference
-        raise RuntimeError("the reference solution passed as solution= was ignored (pfba was called instead)")
+        return None, {"py_codes": [12], "obs": {"reference_passed": True, "pfba_called_by_the_implementation": True},
+                      "stats": {"kind": "del", "entity": entity, "method": method}}
     if method == "linear moma":
         src = ref_sol if ref_sol is not None else used.get("sol")
         if src is None:
